@@ -33,12 +33,18 @@ KwOf(op) == Rat2(op[3])
 Inh(act) == {act[i].p : i \in {i \in 1..Len(act) : Pool[act[i].ctx].rules # {}}} \ {NoP}
 Choices(act, c, kw) == IF kw # NoP THEN {kw} ELSE Inh(act) \cup {Pool[c].default}
 Push(ps, c, kw) == UNION {{<<[ctx |-> c, p |-> p]>> \o act : p \in Choices(act, c, kw)} : act \in ps}
+\* two names in one call: both pushed, the last-named innermost, parameters chosen against the stack before the call
+Push2(ps, c1, c2) == UNION {{<<[ctx |-> c2, p |-> p2], [ctx |-> c1, p |-> p1]>> \o act :
+                               p1 \in Choices(act, c1, NoP), p2 \in Choices(act, c2, NoP)} : act \in ps}
+Two(op) == op[1] \in {"enable2", "with_enter2"}
 StepPoss(ps, op, res) ==
     CASE op[1] \in {"enable", "with_enter"} -> IF Valid(op[2]) THEN Push(ps, op[2], KwOf(op)) ELSE ps
+      [] Two(op) -> IF Valid(op[2]) /\ Valid(op[3]) THEN Push2(ps, op[2], op[3]) ELSE ps
       [] op[1] = "disable" -> {Drop(act, op[2]) : act \in ps}
-      [] op[1] = "with_exit" -> IF fr = <<>> THEN ps ELSE {Drop(act, 1) : act \in ps}
+      [] op[1] = "with_exit" -> IF fr = <<>> THEN ps ELSE {Drop(act, Head(fr)) : act \in ps}
       [] OTHER -> ps
-ExpectedRes(op) == IF op[1] \in {"enable", "with_enter"} /\ ~Valid(op[2]) THEN "error" ELSE "ok"
+ExpectedRes(op) == IF op[1] \in {"enable", "with_enter"} /\ ~Valid(op[2]) THEN "error"
+                   ELSE IF Two(op) /\ ~(Valid(op[2]) /\ Valid(op[3])) THEN "error" ELSE "ok"
 
 TInit == Init /\ l = 1 /\ tid = -1 /\ poss = {<<>>} /\ fr = <<>> /\ ex = {} /\ sys = "none" /\ bad = {}
 TNext == /\ l <= Len(Trace)
@@ -53,6 +59,7 @@ TNext == /\ l <= Len(Trace)
                ex1 == IF op[1] = "define" THEN ex0 \cup {"new1"} ELSE ex0
                sys1 == IF op[1] = "setsys" THEN op[2] ELSE sys0
                fr1 == IF op[1] = "with_enter" /\ Valid(op[2]) THEN <<1>> \o fr0
+                      ELSE IF op[1] = "with_enter2" /\ Valid(op[2]) /\ Valid(op[3]) THEN <<2>> \o fr0
                       ELSE IF op[1] = "with_exit" /\ fr0 # <<>> THEN Tail(fr0) ELSE fr0
                consistent == {act \in ps1 : \A i \in 1..Len(e.probes) : AnswerOK(act, ex1, sys1, e.probes[i])}
                \* which probes fail in *every* possible stack
